@@ -75,6 +75,30 @@ func installStringModels(m *Machine) {
 	m.Hooks["strings.Index"] = s2(func(st *State, a, b string) Val { return int64(strings.Index(a, b)) })
 	m.Hooks["strings.LastIndex"] = s2(func(st *State, a, b string) Val { return int64(strings.LastIndex(a, b)) })
 	m.Hooks["strings.Split"] = s2(func(st *State, a, b string) Val { return strSlice(st, strings.Split(a, b)) })
+	m.Hooks["strings.ContainsRune"] = func(m *Machine, st *State, call *ssa.CallCommon, args []Val) ([]Val, bool) {
+		s, ok := args[0].(string)
+		r, ok2 := args[1].(int64)
+		if !ok || !ok2 {
+			return nil, false
+		}
+		return []Val{strings.ContainsRune(s, rune(r))}, true
+	}
+	m.Hooks["strings.IndexByte"] = func(m *Machine, st *State, call *ssa.CallCommon, args []Val) ([]Val, bool) {
+		s, ok := args[0].(string)
+		r, ok2 := args[1].(int64)
+		if !ok || !ok2 {
+			return nil, false
+		}
+		return []Val{int64(strings.IndexByte(s, byte(r)))}, true
+	}
+	m.Hooks["strings.IndexRune"] = func(m *Machine, st *State, call *ssa.CallCommon, args []Val) ([]Val, bool) {
+		s, ok := args[0].(string)
+		r, ok2 := args[1].(int64)
+		if !ok || !ok2 {
+			return nil, false
+		}
+		return []Val{int64(strings.IndexRune(s, rune(r)))}, true
+	}
 	m.Hooks["strings.Fields"] = func(m *Machine, st *State, call *ssa.CallCommon, args []Val) ([]Val, bool) {
 		a, ok := exactStrings(args)
 		if !ok {
